@@ -229,7 +229,9 @@ def c15_case(ctx: Ctx, case: dict):
     try:
         mod = common.exec_module(common.py_code(ode2))
     except Exception as ex:
-        ctx.violate(f"C15/codegen-raises/{type(ex).__name__}/" + ("nested" if nested else "flat"),
+        import re as _re2
+        m_ = _re2.search(r"Unsupported by <class '[^']*'>: (\w+)", str(ex))
+        ctx.violate(f"C15/codegen-raises/{type(ex).__name__}/" + ("nested" if nested else "flat") + (f"/{m_.group(1)}" if m_ else ""),
                     f"code generation for the imported model raised {type(ex).__name__}: {str(ex)[:100]}", case=case)
         return
     p = mod.init_parameter_values()
